@@ -168,7 +168,7 @@ def _replay(chunk, arg):
     viol, n, nontriv = [], 0, set()
     for raw in chunk:
         case = tlc.decode(raw) if isinstance(raw, str) else raw
-        viol.extend(check_case(W, objs, S, case))
+        viol.extend(core.safe(check_case, case, W, objs, S, case))
         n += 2
         if case["accepted"] or (case["mut"] and case["syntax"]):
             nontriv.add(hash(raw if isinstance(raw, str) else json.dumps(case["toks"])))
